@@ -132,7 +132,7 @@ func c10PublicAPI(r *Runner) {
 	notFmt := "package %s\n\nvar   table=map[string]int{\"a\":1,\n \"b\":2}\n\nfunc   helper( x int )int{ return x+1 }\n"
 	aSrc := "package %s\n\n" + c10Types + "func f(a, b *A) bool { return deriveEqual(a, b) }\n\nfunc g(a, b *B) bool { return deriveEqual(a, b) }\n"
 	scs := []sc{
-		{name: "noflags", files: map[string]string{"a.go": fmt.Sprintf("package noflags\n\n"+c10Types+"func   f(a, b *A) bool { return deriveEqual(a, b) }\n"), "b.go": fmt.Sprintf(notFmt, "noflags")}},
+		{name: "noflags", files: map[string]string{"a.go": fmt.Sprintf("package noflags\n\n" + c10Types + "func   f(a, b *A) bool { return deriveEqual(a, b) }\n"), "b.go": fmt.Sprintf(notFmt, "noflags")}},
 		{name: "noflagsfail", files: map[string]string{"a.go": fmt.Sprintf(aSrc, "noflagsfail"), "b.go": fmt.Sprintf(notFmt, "noflagsfail")}, failOK: true},
 		{name: "autoname", files: map[string]string{"a.go": fmt.Sprintf(aSrc, "autoname"), "b.go": fmt.Sprintf(notFmt, "autoname"), "c_test.go": "package autoname\n\nimport \"testing\"\n\nfunc   TestX(t *testing.T){ }\n"}, flags: []string{"-autoname"},
 			expect: map[string]string{"a.go": "RENAMED"}},
